@@ -60,6 +60,17 @@ class FloatHooks(Hooks):
         return None
 
 
+def _may_fail(self, I, st, inst, args, snap):
+    # a conversion string assembled in a buffer: it can ask for more than INT_MAX characters only through a precision / width
+    items = reconstruct(st, snap) if snap is not None else None
+    if items is None:
+        return True
+    return any(x[0] != 'c' and x[0] != 's' or (x[0] == 'c' and chr(x[1]) in '.*0123456789') for x in items)
+
+
+FloatHooks.snprintf_may_fail = _may_fail
+
+
 def find(m, F, dem):
     for name in F.lib:
         f = m.func(name)
